@@ -6,6 +6,8 @@ wt=$(mktemp -d /tmp/mutwt.XXXXXX); sc=$(mktemp -d /tmp/mutsc.XXXXXX)
 git -C /repo worktree add -q --detach "$wt" HEAD || exit 3
 if ! git -C "$wt" apply "$p"; then echo "PATCH DOES NOT APPLY: $p"; git -C /repo worktree remove --force "$wt"; rm -rf "$sc"; exit 3; fi
 for prop in "$@"; do
-  VERIF_REPO="$wt" VERIF_SCRATCH="$sc" ./check "$prop" --no-evidence --timeout 6 2>&1 | grep -E "^VIOLATION|^KNOWN|quick:|TOOL-ERROR|error" | sed "s|$sc||" | cut -c1-200 | head -6
+  VERIF_REPO="$wt" VERIF_SCRATCH="$sc" ./check "$prop" --no-evidence --timeout 6 > "$sc/log" 2>&1
+  grep -E "^VIOLATION|^TOOL-ERROR|^load error|^contract error" "$sc/log" | sed "s|$sc||" | cut -c1-200 | head -6
+  grep -E "quick:" "$sc/log"
 done
 git -C /repo worktree remove --force "$wt"; rm -rf "$sc"
